@@ -1162,6 +1162,7 @@ type c14case struct {
 	Op    string   `json:"op,omitempty"`
 	Bytes string   `json:"bytes,omitempty"`
 	Hist  *c14hist `json:"hist,omitempty"` // a case of the unit "history" (C14_history_test.go)
+	Mut   *c14mut  `json:"mut,omitempty"`  // a case of the unit "mutation" (C14_mutation_test.go)
 }
 
 type c14exit struct {
@@ -1804,8 +1805,8 @@ func TestVerif_C14(t *testing.T) {
 	defer os.RemoveAll(dir)
 
 	var rc c14case
-	if r.ReplayCase(&rc) && rc.Hist != nil {
-		return // replayed by the unit "history"
+	if r.ReplayCase(&rc) && (rc.Hist != nil || rc.Mut != nil) {
+		return // replayed by the unit "history" / "mutation"
 	}
 	if r.ReplayCase(&rc) && (rc.Desc != "" || rc.Bytes != "") {
 		if rc.Bytes != "" {
